@@ -357,6 +357,12 @@ def dotFive : Str := ".5".toList
 def stripDotFive (xs : Str) : Option Str :=
   if xs.length ≥ 2 ∧ xs.drop (xs.length - 2) = dotFive then some (xs.take (xs.length - 2)) else none
 
+/-- the integral part of `digits.5` with its sign: n + 1/2 for "n", -(n + 1/2) = (-n - 1) + 1/2 for "-n" -/
+def readHalf : Str → Option V
+  | '-' :: cs => (readNat cs).map fun n => .half (-(n : Int) - 1)
+  | '+' :: cs => (readNat cs).map fun n => .half (n : Int)
+  | cs => (readNat cs).map fun n => .half (n : Int)
+
 /-- `strconv.ParseFloat(raw, 64)` on `[+-]?digits` and `[+-]?digits.5` -/
 def readNum (raw : Str) : Option V :=
   match readInt raw with
@@ -364,11 +370,7 @@ def readNum (raw : Str) : Option V :=
   | none =>
     match stripDotFive raw with
     | none => none
-    | some ip =>
-      match ip with
-      | '-' :: cs => (readNat cs).map fun n => .half (-(n : Int) - 1)
-      | '+' :: cs => (readNat cs).map fun n => .half (n : Int)
-      | cs => (readNat cs).map fun n => .half (n : Int)
+    | some ip => readHalf ip
 
 /-- `strconv.ParseBool` -/
 def readBool (raw : Str) : Option Bool :=
@@ -415,14 +417,21 @@ def parseItems (ity : Option Ty) : List Str → Option (Option (List V))
       | some none => some none
       | some (some vs) => some (some (v :: vs))
 
+/-- the delimiter of a non-exploded array under a style (`DecodeArray`: form ",", spaceDelimited " ",
+pipeDelimited "|"; anything else would be `strings.Split(s, "")`: not modelled, not generated) -/
+def styleDelim (e : Option Enc) : Option Char :=
+  if smStyle e = "form".toList then some ','
+  else if smStyle e = "spaceDelimited".toList then some ' '
+  else if smStyle e = "pipeDelimited".toList then some '|'
+  else none
+
 /-- the raw item texts of an array property: all values when exploded, else the first value split at the
 style's delimiter (`urlValuesDecoder.DecodeArray`) -/
 def arrayRaw (e : Option Enc) (v0 : Str) (rest : List Str) : Option (List Str) :=
   if smExplode e then some (v0 :: rest)
-  else if smStyle e = "form".toList then some (splitOn ',' v0)
-  else if smStyle e = "spaceDelimited".toList then some (splitOn ' ' v0)
-  else if smStyle e = "pipeDelimited".toList then some (splitOn '|' v0)
-  else none     -- strings.Split(s, ""): not modelled, not generated
+  else match styleDelim e with
+    | some d => some (splitOn d v0)
+    | none => none
 
 def itemTy (p : RS) : Option Ty := (p.items.map (·.ty)).getD none
 
@@ -624,6 +633,81 @@ def specFormProps (fields : List (Str × List Str)) (encs : List (Str × Enc)) :
     | some none, some l => some l
     | some (some v), some l => some ((k, v) :: l)
     | _, _ => none
+
+/-! #### the encoder side (what a client writes), used to state the round trip -/
+
+def digitChar (d : Nat) : Char := Char.ofNat (48 + d)
+
+def showNatAux : Nat → Nat → List Char → List Char
+  | 0, _, acc => acc
+  | fuel + 1, n, acc =>
+    if n < 10 then digitChar n :: acc
+    else showNatAux fuel (n / 10) (digitChar (n % 10) :: acc)
+
+/-- decimal digits of a natural number (`strconv.FormatInt` for n ≥ 0) -/
+def showNat (n : Nat) : List Char := showNatAux (n + 1) n []
+
+def showInt (n : Int) : Str := if n < 0 then '-' :: showNat (-n).toNat else showNat n.toNat
+
+/-- the text of a primitive value -/
+def showPrim : V → Option Str
+  | .int n => some (showInt n)
+  | .half n => some (if n < 0 then '-' :: (showNat (-(n + 1)).toNat ++ dotFive) else showNat n.toNat ++ dotFive)
+  | .bool b => some (if b then "true".toList else "false".toList)
+  | .str s => some s
+  | _ => none
+
+def showAll : List V → Option (List Str)
+  | [] => some []
+  | v :: r =>
+    match showPrim v, showAll r with
+    | some t, some ts => some (t :: ts)
+    | _, _ => none
+
+def joinWith (sep : Char) : List Str → Str
+  | [] => []
+  | [x] => x
+  | x :: y :: r => x ++ sep :: joinWith sep (y :: r)
+
+/-- the values written for one property: one per item when exploded, one joined text otherwise -/
+def encodeField (e : Option Enc) : V → Option (List Str)
+  | .arr vs =>
+    (match showAll vs with
+     | none => none
+     | some ts =>
+       if smExplode e then some ts
+       else match styleDelim e with
+         | some d => some [joinWith d ts]
+         | none => none)
+  | v => (showPrim v).map fun t => [t]
+
+/-- the form a client sends for the property values `val` -/
+def encodeForm (encs : List (Str × Enc)) (val : Str → Option V) : List (Str × RS) → List (Str × List Str)
+  | [] => []
+  | (k, _) :: r =>
+    match (val k).bind (encodeField (lookup k encs)) with
+    | some ts => (k, ts) :: encodeForm encs val r
+    | none => encodeForm encs val r
+
+/-- a value is of a primitive type (what a form can carry) -/
+def hasTy (t : Ty) : V → Bool
+  | .int _ => t == .integer || t == .number
+  | .half _ => t == .number
+  | .bool _ => t == .boolean
+  | .str _ => t == .string
+  | _ => false
+
+/-- `v` can be written for property `p` under encoding `e`: typed like the property, non-empty text, and —
+for a non-exploded array — no item text contains the delimiter (the `Encodable` side condition) -/
+def FormEncodable (p : RS) (e : Option Enc) (v : V) : Prop :=
+  match p.ty with
+  | some .array =>
+    ∃ it t vs ts, p.items = some it ∧ it.ty = some t ∧ primTy (some t) = true ∧ v = .arr vs ∧ vs ≠ [] ∧
+      (∀ x ∈ vs, hasTy t x = true) ∧ showAll vs = some ts ∧
+      (smExplode e = true ∨ ∃ d, styleDelim e = some d ∧ ∀ x ∈ ts, d ∉ x)
+  | some .object => False
+  | some t => hasTy t v = true ∧ ∀ txt, showPrim v = some txt → txt ≠ []
+  | none => False
 
 /-- the value a body encodes under the decoder registered for the request's media type (`none`: nothing) -/
 def specDecode (reg : List (Str × DecK)) (ct : Str) (s : RS) (encs : List (Str × Enc)) (b : BodyIn) : Option V :=
